@@ -35,6 +35,7 @@ func runC14(ctx *core.Ctx) {
 
 	needsQuoteExact(ctx, "Q1", "Q5")
 	scanFromCandidate(ctx, "Q8")
+	parseFileRaw(ctx, "Q9")
 
 	// ---- Q6: Quote prefixes every line and copies every byte
 	{
